@@ -1,4 +1,4 @@
-SERVED = ["C06", "C08", "C13", "C17", "C18", "C20"]
+SERVED = ["C06", "C08", "C13", "C16", "C17", "C18", "C20"]
 HOOKS = {
     "guard": "PSYCHEC_VERIF",
     "enable": "harness/Makefile compiles /repo's sources with -DPSYCHEC_VERIF into /verif/.cache/build-<flavour>/; "
@@ -93,5 +93,17 @@ CHECKS = {
         "note": "Trusted: Coq kernel incl. vm_compute; T1 translator + IR semantics; operator table C06Spec.v (C11 6.5.5-6.5.17); hand-written climb model and reference parser; extraction; harness. "
                 "Not proved: unbounded equivalence of loop and grammar (C06_climb_is_grammar is open; the bounded lemmas are tests).",
         "technique": "Coq reflective proof of the regenerated operator tables over all token kinds + executable loop/grammar models with exhaustive correspondence (unbounded loop theorem open)",
+    },
+    "C16": {
+        "text": "Theorems for EVERY text (lists of characters with UTF-16 widths, any length): C16_position — the model of the line-start table + computePosition reports, for the offset "
+                "reached by a prefix, (number of line breaks in the prefix, width since the last one); hence C16_suffix_irrelevant, C16_newlines_shift (k line breaks before the token's line: "
+                "line+k, column unchanged), C16_blanks_shift (k blanks before it on its line: column+k), C16_directive_rebases (a line directive names the number of the next line whatever precedes "
+                "it) and C16_excerpt (the excerpt is the token's line, the caret column the width before the token).  The hand-written model is tied to the code by comparing every token's "
+                "computePosition, every token's location() and every diagnostic's line, column and excerpt on generated texts (multi-byte identifiers, comments, continuations, directives, errors), "
+                "plus metamorphic pairs on the implementation itself.",
+        "design_ref": "DESIGN.md section 6, C16",
+        "note": "Trusted: Coq kernel; hand transcription C16Model.v (std::upper_bound as a linear scan over the sorted table); directive recognition by regular expression in the check; extraction; harness. "
+                "Valid UTF-8 assumed. Print Assumptions: closed under the global context.",
+        "technique": "Coq proof by induction over arbitrary texts (closed form of the position arithmetic, relational laws as corollaries) + model/implementation correspondence",
     },
 }
